@@ -114,6 +114,9 @@ def finish(ctx, t0, seed=0, extra_cov=None):
             viol.append(ob)
     ev_dir = os.path.join(VERIF, "evidence")
     os.makedirs(os.path.join(ev_dir, "replay"), exist_ok=True)
+    for n in os.listdir(os.path.join(ev_dir, "replay")):
+        if n.startswith(ctx.prop + "-"):
+            os.remove(os.path.join(ev_dir, "replay", n))
     for ob, kk in kf:
         print("KNOWN-FINDING: property=%s %s -- %s [%s]" % (ctx.prop, ob.key, kk.get("what", ob.detail),
                                                            ob.where))
